@@ -1,3 +1,4 @@
+from planlib import desc_fuzz
 # C06 — reim/cplx FFT and iFFT equal the mathematical transform, in documented order.
 # Cost of one case ~ 0.75 us * m (long double oracle + 2 Horner evaluations + 2 library calls + table hashes):
 # 0.2 ms at m=256, 3 ms at m=4096, 50 ms at m=65536.  Counts are frozen case counts (never time budgets).
@@ -72,5 +73,6 @@ PLAN = dict(
                  "table extent hashed = sizeof(precomp struct) + 2m doubles (reim) / 2m complexes (cplx) at powomegas, "
                  "i.e. not more than OMG_SPACE of the constructors"],
     quick=_jobs("quick"), thorough=_jobs("thorough"),
+    fuzz=desc_fuzz("C06", fix=dict(k=(0, 10), kprev=(0, 11))),
     required_classes=dict(all=_required()),
 )
